@@ -11,6 +11,7 @@ RULE = ("generated games of classes G-ACY/G-ACYNF (non-absorbing finals)/G-CYC/G
         "by tad.Solver at thresholds 1e-2/1e-4/1e-9 and through run_games; generated boards and committed inputs with the "
         "float-certified oracle.  Non-trivial: some state has a value strictly between 0 and 1 and the game has a cycle, an end "
         "component, a real Player-2 choice or several finals; distinct = distinct game description hash.")
+RULE += (' Also (rounds 5-6): G-GAP/G-GAPLOOP (values 1e-9..1e-4 apart around the 6-digit resolution), G-CORR, G-BIGR, G-DIGIT (digit-only / ambiguous action names), G-RETRY (cycles through state 0), G-FINREP (final states listed repeatedly, as list or tuple); a seventh of the solves pass the pruning flag as the int 1/0; an eighth of the batches each run with the root logger at DEBUG, under python -O, and with warnings raised on behalf of the repository turned into errors. THREADS class: the real code called from 3-4 threads of one interpreter (1 us switch interval, yield injection at every ~1000-3000th executed line), each concurrent outcome compared with the sequential outcome of the same process.')
 FLOOR = 300
 REQUIRED = ["solve.ok", "step.vi_reach_calls"]
 ASSUMPTIONS = ["band: -eps <= v*-x <= threshold*T + eps, T = exact max expected steps (stopping games) or the expected steps of the chain "
